@@ -30,8 +30,11 @@ mod kernels;
 mod fakenode;
 mod scen_height;
 mod scen_provider;
+mod scen_manager;
 
 use serde_json::{json, Value};
+
+pub static PANICS: std::sync::Mutex<Vec<String>> = std::sync::Mutex::new(Vec::new());
 
 fn main() {
     let args: Vec<String> = std::env::args().collect();
@@ -43,7 +46,17 @@ fn main() {
     let text = std::fs::read_to_string(&args[2]).expect("read input");
     let input: Value = serde_json::from_str(&text).expect("parse input");
     // silence the default panic message; panics are observations here
-    std::panic::set_hook(Box::new(|_| {}));
+    std::panic::set_hook(Box::new(|info| {
+        let msg = if let Some(s) = info.payload().downcast_ref::<&str>() {
+            s.to_string()
+        } else if let Some(s) = info.payload().downcast_ref::<String>() {
+            s.clone()
+        } else {
+            "?".to_string()
+        };
+        let loc = info.location().map(|l| format!("{}:{}", l.file(), l.line())).unwrap_or_default();
+        PANICS.lock().unwrap().push(format!("{} @ {}", msg, loc));
+    }));
     let out = match kind {
         "batch" => {
             // {"cases": [{"kind": .., "input": ..}, ..]}
@@ -54,6 +67,14 @@ fn main() {
             json!({ "results": outs })
         }
         "height" => scen_height::run_height(&input),
+        "manager" => {
+            let mut v = match catch_unwind(AssertUnwindSafe(|| scen_manager::run(&input))) {
+                Ok(v) => v,
+                Err(_) => json!({"outcome": "driver-panic"}),
+            };
+            v["task_panics"] = json!(PANICS.lock().unwrap().clone());
+            v
+        }
         "provider" => scen_provider::run(&input),
         "poll_loop" => scen_height::run_poll_loop(&input),
         k => kernels::run(k, &input),
